@@ -61,6 +61,10 @@ def all_specs(nmax, dt, start, rng=None):
     for r in (1, 2, 3):
         for sub in itertools.permutations(idx, r):
             specs.append(("list", list(sub)))
+    # lists with negative entries (Python / numpy indexing on the grid)
+    for sub in ([-1], [-1, 0], [0, -2], [-nmax - 1, nmax], [-1, 1, -nmax],
+                [2 % (nmax + 1), -1, 0], [-2, -1], [-1, -2, 0]):
+        specs.append(("list", list(sub)))
     for k in range(nmax + 1):
         for off in (-0.3, 0.0, 0.3):
             specs.append(("float", float(start + (k + off) * dt)))
